@@ -141,6 +141,32 @@ func dedup(xs []string) []string {
 }
 
 func shortType(t types.Type) string {
+	return canonType(t)
+}
+
+// canonType prints a type with package names, aliases resolved everywhere.
+func canonType(t types.Type) string {
+	switch x := t.(type) {
+	case *types.Alias:
+		return canonType(types.Unalias(x))
+	case *types.Pointer:
+		return "*" + canonType(x.Elem())
+	case *types.Slice:
+		return "[]" + canonType(x.Elem())
+	case *types.Named:
+		name := x.Obj().Name()
+		if x.Obj().Pkg() != nil {
+			name = x.Obj().Pkg().Name() + "." + name
+		}
+		if ta := x.TypeArgs(); ta != nil && ta.Len() > 0 {
+			var args []string
+			for i := 0; i < ta.Len(); i++ {
+				args = append(args, canonType(ta.At(i)))
+			}
+			name += "[" + strings.Join(args, ",") + "]"
+		}
+		return name
+	}
 	return strings.ReplaceAll(types.TypeString(t, func(p *types.Package) string { return p.Name() }), ", ", ",")
 }
 
